@@ -410,6 +410,34 @@ def case_range(mon, fi, year):
                               "returned": repr(r)})
 
 
+def case_edge(mon, fi, which, off):
+    """Queries at and next to the ends of the documented range: 1 January
+    -2000 and 1 January 4000 at 0h are inside (year() is exactly -2000.0 and
+    4000.0), `off` days further out is outside."""
+    from pymeeus.Epoch import Epoch
+    planet, meth, args, kind = FINDERS[fi]
+    edge = Epoch(-2000, 1, 1.0).jde() if which == "lo" else \
+        Epoch(4000, 1, 1.0).jde()
+    q = edge + off
+    inside = (off >= 0.0) if which == "lo" else (off <= 0.0)
+    mon.cls("query-at-range-edge", (fi, which, off), [planet, meth, q])
+    if inside:
+        case_event(mon, fi, q)
+        return
+    mon.evals += 1
+    try:
+        r = getattr(cls_of(planet), meth)(Epoch(q), *args)
+    except ValueError:
+        mon.ok("range.refused")
+        return
+    except Exception as ex:
+        mon.dev("range.refused", {"planet": planet, "finder": meth,
+                                  "query": q, "raised": repr(ex)})
+        return
+    mon.dev("range.refused", {"planet": planet, "finder": meth, "query": q,
+                              "returned": repr(r)})
+
+
 def case_leapday(mon, fi, year):
     """Query on 29 February of a Julian century year (a date the proleptic
     Gregorian calendar does not have)."""
@@ -421,7 +449,7 @@ def case_leapday(mon, fi, year):
     case_event(mon, fi, q)
 
 
-CASES = {"history": history.case, "sweep": case_sweep, "event": case_event, "range": case_range,
+CASES = {"history": history.case, "sweep": case_sweep, "event": case_event, "range": case_range, "edge": case_edge,
          "leapday": case_leapday}
 
 
@@ -474,6 +502,11 @@ def run(mon, spec):
             for yr in (-2000.6, -2500.0, 4000.6, 5000.0):
                 mon.begin("range", [fi, yr])
                 case_range(mon, fi, yr)
+            for which, off in (("lo", 0.0), ("lo", 1e-3), ("lo", -1e-3),
+                               ("hi", 0.0), ("hi", -1e-3), ("hi", 1e-3),
+                               ("lo", 25.0), ("hi", -25.0)):
+                mon.begin("edge", [fi, which, off])
+                case_edge(mon, fi, which, off)
         for yr in (rng.choice((-1900, -500, 300, 900, 1500)), 1300):
             mon.begin("leapday", [fi, yr])
             case_leapday(mon, fi, yr)
